@@ -13,6 +13,7 @@
   Core Lean only.
 -/
 import NutsModel.C14.Notifier
+import NutsModel.Facts.C14
 
 namespace Nuts.C14
 
@@ -47,7 +48,8 @@ def applyOpt (n : NCfg) : Opt → NCfg
 def newNotifier (defaultDelay : Int) (name : String) (opts : List Opt) : NCfg :=
   opts.foldl applyOpt { name := name, retryDelay := defaultDelay }
 
-def NCfg.shelfName (n : NCfg) : String := "_" ++ n.name ++ "_jobs"
+/-- `fmt.Sprintf("_%s_jobs", p.name)`: prefix and suffix are REGENERATED from the format string in the source -/
+def NCfg.shelfName (n : NCfg) : String := Facts.C14.shelfNamePrefix ++ n.name ++ Facts.C14.shelfNameSuffix
 def NCfg.persistent (n : NCfg) : Bool := n.db.isSome
 def NCfg.accepts (n : NCfg) (pal : Bool) (pt : String) (ty : EvType) : Bool := n.filters.all fun f => f.test pal pt ty
 
